@@ -14,14 +14,14 @@ CFG = {'lean_modules': ['ObiVerif.Props.C01'],
          'buffers) on generated multi-chunk streams (2.5-5 MB, resp. just over 128 MiB) with 2..4 workers. `kseq`: the C/kseq reader against the Go chunk '
          'parser on every generated FASTA/FASTQ file. non-trivial = distinct case with at least two chunks (chunks/pipe) or a non-empty input (split/parse); '
          'big/kseq/file cases are oracle-only and counted trivial. Deepening round 2: bufio limits (EMBL lines of 65533..131072 bytes inside a record / '
-         'between records / first / unterminated last / n-1 bytes + CR LF / followed by 40 records so that a cut falls among them, with buffers below and above the line length; GenBank lines of 99..70000 bytes as '
-         'ignored line, DEFINITION continuation, feature line + CR LF, sequence line, unterminated last line; FASTA/FASTQ title, sequence, + and quality lines '
-         'of 4094..12289 bytes through the 4096-byte bufio.Reader); strings.TrimSpace on every white-space rune of unicode.IsSpace and on 16 look-alikes '
-         '(invalid / overlong UTF-8, lone lead or continuation bytes, ZWSP, BOM) at both ends and inside DEFINITION / continuation / SOURCE / DE / OS values '
-         '(fixed table + one generated value in three); VT, FF, NBSP, NEL, NUL, DEL, 0xFF inside FASTA/FASTQ titles (one generated file in three; not given to '
-         'kseq); empty sequences, title-only records, CONTIG-only GenBank records; `file`: the universal entry point ReadSequencesFromFile (Ropen + '
-         'OBIMimeTypeGuesser + dispatch + the real 1 MiB / 128 MiB readers, plain and gzip files) on every generated FASTA/FASTQ file and one flat file per '
-         'plan (thorough: two), compared with the chunk parser and the naive reference',
+         'between records / first / unterminated last / n-1 bytes + CR LF / followed by 40 records so that a cut falls among them, with buffers below and '
+         'above the line length; GenBank lines of 99..70000 bytes as ignored line, DEFINITION continuation, feature line + CR LF, sequence line, unterminated '
+         'last line; FASTA/FASTQ title, sequence, + and quality lines of 4094..12289 bytes through the 4096-byte bufio.Reader); strings.TrimSpace on every '
+         'white-space rune of unicode.IsSpace and on 16 look-alikes (invalid / overlong UTF-8, lone lead or continuation bytes, ZWSP, BOM) at both ends and '
+         'inside DEFINITION / continuation / SOURCE / DE / OS values (fixed table + one generated value in three); VT, FF, NBSP, NEL, NUL, DEL, 0xFF inside '
+         'FASTA/FASTQ titles (one generated file in three; not given to kseq); empty sequences, title-only records, CONTIG-only GenBank records; `file`: the '
+         'universal entry point ReadSequencesFromFile (Ropen + OBIMimeTypeGuesser + dispatch + the real 1 MiB / 128 MiB readers, plain and gzip files) on '
+         'every generated FASTA/FASTQ file and one flat file per plan (thorough: two), compared with the chunk parser and the naive reference',
  'technique': 'Lean 4 theorems on executable models of ReadSeqFileChunk, the three record splitters, the four chunk parsers and the re-sequencer, for all '
               'files / buffer sizes / arrival orders + differential correspondence of every model with the real code (small buffers reach every cut position) '
               '+ direct oracles on the real code (one-chunk parse, naive line-based reference parser, file order, reassembly, two-parser agreement)',
@@ -71,8 +71,9 @@ CFG = {'lean_modules': ['ObiVerif.Props.C01'],
                '`file` oracle only, not modelled; FASTA/FASTQ lines longer than 12289 bytes are not compared with the model (its byte-by-byte append is '
                'quadratic), the real parsers have no line limit there (bufio.Reader.ReadByte). Observed, outside the property: EmblChunkParser silently drops '
                'the rest of a chunk after a line of 65536 bytes or more (ErrTooLong ignored) - chunk-dependent on such inputs (stat '
-               'chunk-dependence-on-malformed-input); the kseq reader splits titles at VT/FF (isspace) where the Go parsers split at blank/tab only (oracle '
-               'signature kseq.*.two-parsers-vt-ff.*, cases not generated).',
+               'chunk-dependence-on-malformed-input); the kseq reader splits titles at VT/FF (isspace) where the Go parsers split at blank/tab only (open '
+               'known finding C01-kseq-isspace-title, own oracle signature kseq.*.two-parsers-vt-ff.*, five corpus cases; the canonical result of these cases '
+               'stays `agree`, the disagreement is reported by the oracle line only).',
  'trusted_base': LEAN_TB + ['io.ReadFull: fills the buffer unless the stream ends (ErrUnexpectedEOF / EOF)',
  'bufio.Reader.ReadLine line splitting as modelled (linesReadLine); bufio.Scanner / ScanLines with MaxScanTokenSize = 65536 as modelled (linesScanMax)',
  'strconv.Atoi, strings.SplitN as modelled; strings.TrimSpace = trimSpace (unicode.IsSpace table of Go 1.23, utf8 decoding of invalid bytes as width-1 '
